@@ -633,6 +633,10 @@ class World:
 
     async def op_mark_creating(self, op):
         inst = self.instance_or_ghost(op['instance'])
+        # the driver calls mark_job_creating only from JobPrivateInstanceManager.create_instance, right after Instance.create (in-memory
+        # state 'pending'); the op is delivered to any instance, one in another in-memory state is not judged by the in-memory clause
+        if getattr(inst, 'state', None) != 'pending' and hasattr(inst, '__dict__'):
+            inst.__dict__['_verif_unauthorised'] = True
         await self.impl.dj.mark_job_creating(self.app, op['batch'], op['job'], op['attempt'], inst, op['time'], [])
         return {}
 
